@@ -28,6 +28,8 @@ def _schema(with_ct: bool = True):
     schema.v.used = IntField(default=1)
     schema.r.must = IntField(required=True)   # ... and one with a required field that has no default
     schema.r.opt = IntField(default=0)
+    schema.dyn = Schema(dynamic=True)           # a dynamic section: may hold undeclared keys
+    schema.dyn.known = IntField(default=0)
 
     def _used_le_limit(cfg):
         if cfg.used is not None and cfg.limit is not None and cfg.used > cfg.limit:
@@ -74,6 +76,8 @@ def _state(cfg: Config, sa: bool, sb: bool, sl: bool, si: bool, x: int):
     """an arbitrary valid state: some fields user-defined with symbolic valid values"""
     if sa:
         cfg.a = x
+        cfg.dyn.extra = x            # an undeclared key picked up at run time
+        cfg.dyn.known = x
     if sb:
         cfg.s.b = x + 1
         cfg.s.t.c = x
